@@ -85,6 +85,11 @@ func HostileSeeds() []Seed {
 	add("strlit-bom", "a : 'a' ;\nS : a \"\ufeff\" ;\n")
 	add("strlit-tab-vt", "a : 'a' ;\nS : a \"\t\v\" ;\n")
 	add("strlit-rawnl", "a : 'a' ;\nS : a `x\ny` ;\n")
+	// two terminals, one holding a control character and one spelled like the escaped form of the first (whatever
+	// escapes names for comments or tables must not make them the same name)
+	add("strlit-escaped-twin-lf", "a : 'a' ;\nS : a `;\n` | a a \";\\n\" ;\n")
+	add("strlit-escaped-twin-nul", "a : 'a' ;\nS : a \"x\x00\" | a a `x\\x00` ;\n")
+	add("strlit-escaped-twin-cr", "a : 'a' ;\nS : a `x\ry` | a a `x\\ry` ;\n")
 	// bytes that are not UTF-8 inside a string literal terminal (a lone lead byte, a lone continuation byte, a
 	// truncated sequence, an encoded surrogate, 0xFF)
 	for i, b := range []string{"\xff", "x\xc3", "\x80y", "\xe2\x82", "\xed\xa0\x80", "\xf8\x88\x80\x80\x80"} {
